@@ -361,6 +361,7 @@ class Prop:
     engine = None             # harness sub-command
     judge_module = None       # e.g. "Run.Judge_C17"
     prop_module = None        # e.g. "Props.C17"
+    extra_props = []          # further property files of the same property: [("Props/C02Fuel.v", "Props.C02Fuel")]
     prop_file = None          # e.g. "Props/C17.v"
     coq_targets = None
     sizes = {"quick": 200, "thorough": 5000}
@@ -471,17 +472,27 @@ def run_check(prop, tier, seed, replay=None):
     try:
         # ---- 1. proof obligations
         names = theorem_names(prop.prop_file)
-        obligations = len(names) + 1      # + "no forbidden construct in the development"
+        extra = [(m, theorem_names(f)) for f, m in prop.extra_props]
+        obligations = len(names) + sum(len(ns) for _, ns in extra) + 1      # + "no forbidden construct in the development"
         discharged = 0
         proof_broken = None
         try:
             bt = coq_make(prop.coq_targets)
             cov["coq_build_s"] = round(bt, 1)
             pa = print_assumptions(prop.prop_module, names, tmp)
+            for m, ns in extra:
+                pa.update(print_assumptions(m, ns, tmp))
+            names = names + [n for _, ns in extra for n in ns]
             discharged = sum(1 for n in names if pa.get(n) is not None)
             cov["print_assumptions"] = pa
             if tier == "thorough" and not os.environ.get("PV_NO_COQCHK"):
                 cov["coqchk"] = coqchk(prop.prop_module)
+                for m, _ in extra:
+                    if cov["coqchk"].get("ok"):
+                        more = coqchk(m)
+                        cov["coqchk_" + m] = more
+                        if not more.get("ok"):
+                            cov["coqchk"] = more
                 if not cov["coqchk"].get("ok"):
                     proof_broken = ("coqchk rejects the compiled development of " + prop.prop_module, cov["coqchk"].get("tail", ""))
             hits = forbidden_scan(prop.coq_targets)
